@@ -17,6 +17,9 @@ CONSTANTS
   BUG_STALE_TC = FALSE
   BUG_NESTED_FLAGS = FALSE
   OPS = {"clear", "clearw", "clone", "clonew", "collect", "downgrade", "drop", "dropw", "new", "put", "set", "setw", "unwrap", "upgrade", "upgradef"}
+  AUTOF = TRUE
+  AUTO0 = FALSE
+  SZ = 152
 INVARIANT NoViolation
 INVARIANT StructInv
 VIEW View
